@@ -10,7 +10,8 @@ CHUNK = 2
 CASE_TIMEOUT = 600
 REQUIRED_COUNTERS = ["rows_joined_vs_standalone", "rows_detailed_vs_standalone"]
 RULE = ("specs from the shared small-spec family (1-3 Einsums, 2-3 memory levels, inf/generous/tight capacities, "
-        "keep/may_keep variants, trade-off and random cost tables) x metric sets {ENERGY, LATENCY, EDP, ENERGY|LATENCY, "
+        "keep/may_keep variants, trade-off and random cost tables; a DENSE class with bounds 8/16 whose fronts contain several rows "
+        "of one pmapping template; a PERSISTENT class with a finite backing store) x metric sets {ENERGY, LATENCY, EDP, ENERGY|LATENCY, "
         "ENERGY|LATENCY|RESOURCE_USAGE}; map_workload_to_arch once with eval_in_detail=False (joiner's numbers) and once "
         "with eval_in_detail=True; every returned row's tree is rebuilt from user-facing fields only and evaluated by "
         "evaluate_mapping on a fresh, unevaluated spec; totals (energy, latency, EDP, per-memory usage) and the per-Einsum "
